@@ -14,7 +14,7 @@ type Inject struct {
 	Realm   int    `json:"realm"`             // insert: -1 = at section level, k = inside realm k; drop-close: the realm
 	At      int    `json:"at,omitempty"`      // insert: which of the candidate positions (mod their number)
 	Line    string `json:"line,omitempty"`    // insert: the raw line (indentation is added)
-	Nested  bool   `json:"nested,omitempty"`  // drop-close: drop the first nested block's brace instead of the realm's
+	Nested  bool   `json:"nested,omitempty"`  // drop-close: drop the first nested block's brace instead of the realm's; insert: inside a block nested in the realm
 }
 
 // tape is the layout choice sequence: Pick(n) consumes one element (cycling); an empty tape
@@ -130,7 +130,7 @@ func applyInject(ls []ll, inj *Inject) ([]ll, error) {
 			if inj.Realm < 0 && l.depthAfter == 0 {
 				cand = append(cand, i)
 			}
-			if inj.Realm >= 0 && l.realm == inj.Realm && l.depthAfter == 1 {
+			if inj.Realm >= 0 && l.realm == inj.Realm && ((!inj.Nested && l.depthAfter == 1) || (inj.Nested && l.depthAfter >= 2)) {
 				cand = append(cand, i)
 			}
 		}
@@ -145,6 +145,9 @@ func applyInject(ls []ll, inj *Inject) ([]ll, error) {
 		d := 0
 		if inj.Realm >= 0 {
 			d = 1
+		}
+		if inj.Nested {
+			d = ls[i].depthAfter
 		}
 		n := ll{sec: inj.Section, role: "raw", realm: inj.Realm, depth: d, depthAfter: d, val: inj.Line}
 		out := append([]ll{}, ls[:i+1]...)
